@@ -416,6 +416,8 @@ func runC17(c *core.Ctx) {
 // the OnCall hook - output written by any single call deep inside a history
 // (a stray log line in a rebalancing path, say).
 func runC17Deep(c *core.Ctx) {
+	// only C17's own verdicts count here (panics are reported by RunCase)
+	c.Only = func(kind string) bool { return kind == "output" }
 	o0, e0 := fdSizes()
 	c.OnCall = func() {
 		o, e := fdSizes()
